@@ -434,7 +434,8 @@ def main():
             while time.time() - t0 < budget and k < 6 and not violations:
                 k += 1
                 sdir = os.path.join(outdir, "search%d" % k)
-                rc, out, t = run_harness(prop, seed * 7919 + k, "thorough" if k > 1 else tier, sdir)
+                # quick tier: further quick-size rounds with fresh seeds; thorough tier: thorough-size rounds
+                rc, out, t = run_harness(prop, seed * 7919 + k, tier, sdir)
                 if rc != 0:
                     break
                 s2, r2, e2, _ = evaluate(sdir)
